@@ -146,6 +146,9 @@ func main() {
 			fmt.Fprintln(wi, "ok")
 			for k := 1 + rng.Intn(3); k > 0 && !failed; k-- {
 				f := rng.Intn(4)
+				if rng.Intn(4) == 0 {
+					f = rng.Intn(8) // f4..f7 come into being through renames
+				}
 				name := fmt.Sprintf("f%d", f)
 				cache := map[plumbing.Hash]*items.CachedBlob{}
 				diffs := map[string]items.FileDiffData{}
@@ -216,12 +219,27 @@ func main() {
 					if rng.Intn(25) == 0 {
 						declNew++
 					}
-					ch = &object.Change{From: entry(name, blob(rng, cache, oldL)), To: entry(name, blob(rng, cache, declNew))}
-					diffs[name] = items.FileDiffData{OldLinesOfCode: oldL, NewLinesOfCode: declNew, Diffs: dd}
 					sc := strings.Join(script, ",")
 					if sc == "" {
 						sc = "-"
 					}
+					if rng.Intn(6) == 0 {
+						// the same edit reported under a new name (a rename with changes); now and then onto a name that is
+						// tracked already, which the real code overwrites
+						to := 4 + rng.Intn(4)
+						if rng.Intn(8) == 0 {
+							to = (f + 1) % 4
+						}
+						toName := fmt.Sprintf("f%d", to)
+						ch = &object.Change{From: entry(name, blob(rng, cache, oldL)), To: entry(toName, blob(rng, cache, declNew))}
+						diffs[toName] = items.FileDiffData{OldLinesOfCode: oldL, NewLinesOfCode: declNew, Diffs: dd}
+						opline = fmt.Sprintf("ren %d %d %d %d %s", f, to, oldL, declNew, sc)
+						delete(lens, f)
+						lens[to] = newLen
+						break
+					}
+					ch = &object.Change{From: entry(name, blob(rng, cache, oldL)), To: entry(name, blob(rng, cache, declNew))}
+					diffs[name] = items.FileDiffData{OldLinesOfCode: oldL, NewLinesOfCode: declNew, Diffs: dd}
 					opline = fmt.Sprintf("mod %d %d %d %s", f, oldL, declNew, sc)
 					lens[f] = newLen
 				}
